@@ -289,6 +289,12 @@ Definition join_new (vs : list nat) (h : list chtext) (sep : chtext) (items : li
   let id := length h in
   bind (join_loop vs (h ++ [empty_text]) id sep items true) (fun h' => Ok (h', id)).
 
+(* what `sep.join(X)` may be given instead of a list of operands *)
+Inductive iterable :=
+| ItText (v : nat)          (* a CHText *)
+| ItChunk (c : chunk)       (* a bare chunk *)
+| ItStr (s : list Z).       (* a str: its characters *)
+
 Inductive stmt :=
 (* statements binding a new variable (the next index) *)
 | SNew (p : part)                         (* CHText( *p ) *)
@@ -312,7 +318,14 @@ Inductive stmt :=
 | OChunkIndex (c : chunk) (i : Z)
 | OChunkSlice (c : chunk) (lo hi : option Z)
 | OChunkEq (c : chunk) (p : part)         (* c == p ; p a str / chunk *)
-| OChunkFormat (c : chunk) (spec : list Z).
+| OChunkFormat (c : chunk) (spec : list Z)
+(* a text / chunk / str used as an iterable *)
+| SJoinIt (a : nat) (it : iterable)       (* v_a.join(X), X a CHText / chunk / str *)
+| SChunkJoinIt (c : chunk) (it : iterable)
+| OIter (a : nat)                         (* list(v_a), for x in v_a, tuple(v_a), *v_a, ... *)
+| ORevIter (a : nat)                      (* list(reversed(v_a)) *)
+| OIn (a : nat) (p : part)                (* p in v_a *)
+| OChunkIter (c : chunk) (rev : bool).    (* list(c) / list(reversed(c)) *)
 
 (* what the harness reads off a comparison: a == b, b == a, a != b, b != a.  Neither class defines
    __ne__, so Python answers != with the negation of __eq__ (of the reflected __eq__ when the first
@@ -343,6 +356,63 @@ Definition finish (st : state) (r : res (list chtext * nat)) : state * sx :=
 Definition alloc (h : list chtext) (t : chtext) : list chtext * nat := (h ++ [t], length h).
 
 Definition chunks_part (cs : list chunk) : part := fold_right (fun c r => PCons (PC c) r) PNil cs.
+
+(* ------------------------------------------------------------------ *)
+(* a text (or a chunk, or a str) used as an ITERABLE                    *)
+
+(* iter(t): neither class defines __iter__ (nor __reversed__ / __contains__), so Python's
+   sequence iterator asks for t[0], t[1], ... until IndexError: every item is a CHText of one
+   visible character.  The walk ends at the latest at index = number of characters, where
+   _get_chunk_pos finds nothing; running out of fuel is reported as Hang, never as an end. *)
+Fixpoint iter_loop (fuel : nat) (t : chtext) (i : Z) : res (list chtext) :=
+  match fuel with
+  | O => Err Hang
+  | S f => match text_index t i with
+           | Ok x => bind (iter_loop f t (i + 1)) (fun r => Ok (x :: r))
+           | Err IndexErr => Ok []
+           | Err e => Err e
+           end
+  end.
+Definition text_items (t : chtext) : res (list chtext) :=
+  iter_loop (S (length (plain_text t))) t 0.
+
+(* reversed(t): len(t), then t[n-1], ..., t[0]; an IndexError ends the walk silently *)
+Fixpoint rev_loop (k : nat) (t : chtext) : res (list chtext) :=
+  match k with
+  | O => Ok []
+  | S j => match text_index t (Z.of_nat j) with
+           | Ok x => bind (rev_loop j t) (fun r => Ok (x :: r))
+           | Err IndexErr => Ok []
+           | Err e => Err e
+           end
+  end.
+Definition text_rev_items (t : chtext) : res (list chtext) := rev_loop (Z.to_nat (scrlen t)) t.
+
+(* the items of a bare chunk: c[0], c[1], ... = clone(text[i]) until str raises IndexError *)
+Definition chunk_items (c : chunk) : list chunk := map (fun ch => clone c [ch]) (c_text c).
+
+(* `result += x` for a CHText x that is no variable: for part in x.chunks[:]: _append_chunk(part) *)
+Definition text_part (x : chtext) : part := chunks_part (chunks x).
+
+Definition iter_parts (vs : list nat) (h : list chtext) (it : iterable) : res (list part) :=
+  match it with
+  | ItText v => bind (text_items (hget h (var_id vs v))) (fun l => Ok (map text_part l))
+  | ItChunk c => Ok (map PC (chunk_items c))
+  | ItStr s => Ok (map (fun ch => PS [ch]) s)
+  end.
+
+(* `p in t`: no __contains__, so any(item == p for item in iter(t)); an item is a fresh object *)
+Definition item_eq (vs : list nat) (h : list chtext) (x : chtext) (p : part) : bool :=
+  match p with
+  | PS s => text_eq_str x s
+  | PC c => text_eq_chunk x c
+  | PV v => text_eq_text x (hget h (var_id vs v))
+  | _ => false
+  end.
+
+(* what the harness reads off every variable at the end (and off every item of an iteration) *)
+Definition sx_text (t : chtext) : sx :=
+  SL [SZ (scrlen t); sx_list sx_chunk (chunks t); sx_str (text_str t); sx_str (plain_text t)].
 
 Definition exec_stmt (st : state) (s : stmt) : state * sx :=
   let h := heap st in
@@ -393,6 +463,13 @@ Definition exec_stmt (st : state) (s : stmt) : state * sx :=
                end in
       (st, sx_eq_obs b)
   | OChunkFormat c spec => (st, sx_res sx_str (text_format (append_chunk empty_text c) spec))
+  | SJoinIt a it => finish st (bind (iter_parts vs h it) (fun items => join_new vs h (obj a) items))
+  | SChunkJoinIt c it =>
+      finish st (bind (iter_parts vs h it) (fun items => join_new vs h (append_chunk empty_text c) items))
+  | OIter a => (st, sx_res (sx_list sx_text) (text_items (obj a)))
+  | ORevIter a => (st, sx_res (sx_list sx_text) (text_rev_items (obj a)))
+  | OIn a p => (st, sx_res sx_bool (bind (text_items (obj a)) (fun l => Ok (existsb (fun x => item_eq vs h x p) l))))
+  | OChunkIter c rv => (st, sx_list sx_chunk (if rv then rev (chunk_items c) else chunk_items c))
   end.
 
 Fixpoint exec (st : state) (prog : list stmt) : state * list sx :=
@@ -404,7 +481,4 @@ Fixpoint exec (st : state) (prog : list stmt) : state * list sx :=
 
 Definition init_state : state := State [] [].
 
-(* what the harness reads off every variable at the end *)
-Definition sx_text (t : chtext) : sx :=
-  SL [SZ (scrlen t); sx_list sx_chunk (chunks t); sx_str (text_str t); sx_str (plain_text t)].
 Definition dump (st : state) : list sx := map (fun id => sx_text (hget (heap st) id)) (vars st).
